@@ -114,17 +114,22 @@ def snapshot(obj, kind):
     return None
 
 
-def wrap(hname, obj):
-    """Place the subject where the hint expects it."""
+def wrap(hname, obj, bad_sibling=False):
+    """Place the subject where the hint expects it; optionally next to a sibling that violates the hint, so that the
+    code explaining the rejection walks over the (conforming or not) subject again."""
     if hname.startswith('list['):
-        return [obj]
+        return [obj, 0.5] if bad_sibling else [obj]
     if hname.startswith('dict[str,'):
-        return {'k': obj}
+        return {'k': obj, 'z': 0.5} if bad_sibling else {'k': obj}
     if hname.startswith('tuple['):
-        return (obj, 1)
+        return (obj, 'bad') if bad_sibling else (obj, 1)
     if hname.startswith('Iterable[') and hname.count('[') > 1:
-        return [obj]
+        return [obj, 0.5] if bad_sibling else [obj]
     return obj
+
+
+def wrappable(hname):
+    return hname.startswith(('list[', 'dict[str,', 'tuple[')) or (hname.startswith('Iterable[') and hname.count('[') > 1)
 
 
 def _work(idx):
@@ -157,9 +162,11 @@ def _work(idx):
                 continue
             for cname, items in CONTENTS.items():
                 for r in _STATE['res']:
-                    for entry in ('is_bearable', 'die_if_unbearable', 'decorated'):
+                    for entry in ('is_bearable', 'die_if_unbearable', 'decorated') + (('die_if_unbearable+bad-sibling', 'decorated+bad-sibling') if wrappable(hname) else ()):
                         subj = mk(list(items))
-                        x = wrap(hname, subj)
+                        x = wrap(hname, subj, entry.endswith('+bad-sibling'))
+                        entry_kind = entry
+                        entry = entry.split('+')[0]
                         before = snapshot(subj, kind)
                         n_before = len(subj) if kind == 'mapping' and isinstance(subj, dict) else None
                         del S.LOG[:]
@@ -183,7 +190,7 @@ def _work(idx):
                         out['verdicts'].add((sname, rejected))
                         log = list(S.LOG)
                         del S.LOG[:]
-                        rep = {'hint': hname, 'subject': sname, 'contents': cname, 'draw': r, 'entry': entry, 'log': [list(l) for l in log[:12]]}
+                        rep = {'hint': hname, 'subject': sname, 'contents': cname, 'draw': r, 'entry': entry_kind, 'log': [list(l) for l in log[:12]]}
                         sig = f'{hname}:{sname}'
                         # 1. nothing consumed
                         if kind in ('oneshot', 'cursor', 'async'):
